@@ -155,6 +155,11 @@ fn iterate(mut it: TypeLengthValues<'_>, n_bytes: usize) -> (usize, bool, usize)
             acc += format!("{:?}", it).len().min(1);
         }
     }
+    // sections that decode to 65536 items or more (only reachable through TypeLengthValues::from): the counting consumers
+    if n_bytes >= 196_608 {
+        let fresh = TypeLengthValues::from(it.as_bytes());
+        acc += fresh.clone().count().min(3) + fresh.size_hint().0.min(3) + fresh.clone().last().is_some() as usize;
+    }
     // after the end (for sections of more than 65535 bytes - TypeLengthValues::from takes any slice - the offset is then past
     // what a 16-bit length accessor reports)
     if n_bytes <= 512 || n_bytes > 65535 {
@@ -385,6 +390,46 @@ pub fn run(r: &mut Runner) -> &'static str {
     };
     let space = format!("4 heads x all sequences of <= {} tokens over a 13-token alphabet with CR, LF and 2/3/4-byte characters", k);
     r.bulk("c03.cr-multibyte-tokens", Some(&space), &work, &judge);
+    // the same call tens of thousands of times on one thread: a per-thread streak counter, a tally, a generation number
+    // that is kept in 8 or 16 bits must not overflow (this stage matters in the overflow-checked build)
+    let many = |shard: usize, nshards: usize, st: &mut Stats, _stop: &std::sync::atomic::AtomicBool| -> Option<(Vec<u8>, Fail)> {
+        let mut v2 = crate::oracle::v2::SIG.to_vec();
+        v2.extend_from_slice(&[0x21, 0x11, 0, 12, 10, 0, 0, 1, 10, 0, 0, 2, 0, 80, 1, 187]);
+        let inputs: Vec<Vec<u8>> = vec![
+            b"PROXY TCP4 127.0.0.1 192.168.1.1 80 443\r\n".to_vec(),
+            b"PROXY UNKNOWN\r\n".to_vec(),
+            b"PROXY TCP6 ::1 ::2 1 2\r\nGET /".to_vec(),
+            v2.clone(),
+            v2[..20].to_vec(),
+            b"PROXY TCP4 127.0.0.1".to_vec(),
+            b"HELLO\r\n".to_vec(),
+        ];
+        for (i, x) in inputs.iter().enumerate() {
+            if i % nshards != shard {
+                continue;
+            }
+            st.eval();
+            st.nontrivial(x.digest());
+            let r = guard(|| {
+                let mut acc = 0usize;
+                for _ in 0..70_000u32 {
+                    acc += HeaderResult::parse(&x[..]).is_complete() as usize;
+                    acc += ppp::v1::Header::try_from(&x[..]).is_ok() as usize;
+                    acc += ppp::v2::Header::try_from(&x[..]).is_ok() as usize;
+                    if let Ok(s) = std::str::from_utf8(x) {
+                        acc += ppp::v1::Header::try_from(s).is_ok() as usize;
+                        acc += s.parse::<ppp::v1::Addresses>().is_ok() as usize;
+                    }
+                }
+                acc
+            });
+            if let Err(p) = r {
+                return Some((x.clone(), Fail::new("panic:70000-calls-in-a-row", shape(x), "every parsing entry point, 70 000 times on one thread", "returns normally every time", format!("panic: {}", p))));
+            }
+        }
+        None
+    };
+    r.bulk("c03.many-calls", Some("7 inputs (accepted v1 / v2 headers, prefixes, a rejected line) x 70 000 consecutive calls of each parsing entry point on one thread"), &many, &judge);
     let _ = hex(&[]);
     "exploration"
 }
